@@ -405,7 +405,7 @@ func c05API(c *Ctx, msgs []string) {
 		}
 
 		// (e) gRPC-web binary and text
-		for _, ct := range []string{"application/grpc-web+proto", "application/grpc-web-text+proto"} {
+		for wi, ct := range []string{"application/grpc-web+proto", "application/grpc-web-text+proto", "application/grpc-web+proto", "application/grpc-web-text+proto"} {
 			body := grpcFrame(0, nil)
 			var rd io.Reader = bytes.NewReader(body)
 			if strings.Contains(ct, "text") {
@@ -417,6 +417,10 @@ func c05API(c *Ctx, msgs []string) {
 			}
 			r := httptest.NewRequest("POST", path, rd)
 			r.Header.Set("Content-Type", ct)
+			if wi >= 2 { // the same call arriving over HTTP/2 (what a browser speaks to a TLS endpoint)
+				r.ProtoMajor, r.ProtoMinor = 2, 0
+				ct += " over HTTP/2"
+			}
 			rec, pn := fx.Serve(r)
 			c.Eval("api-web", ct+" "+in, true)
 			if pn != nil {
